@@ -1,4 +1,5 @@
 import CnbVerif.Lemmas.Packager
+import CnbVerif.Lemmas.PackagerSel
 import CnbVerif.Props.C13
 import CnbVerif.Props.C14
 /-!
@@ -317,6 +318,54 @@ directory names, hence distinct output directories: `names_distinct` of `WellFor
 theorem output_names_distinct (a b : String) (ha : '_' ∉ a.toList) (hb : '_' ∉ b.toList)
     (h : dirName a = dirName b) : a = b := dirName_inj ha hb h
 
+/-- **M1 `selection_independent_of_package_dir`** ("for exactly the selected buildpacks and their dependencies … prints
+exactly the selected buildpacks' output directories" — whatever `--package-dir` is). What a successful run selects,
+packages and prints is `selectionOf ws inv`, a function of the workspace and the invocation directory that takes neither
+`cfg` (profile, target, `--package-dir`) nor the tree in the package directory: for **every** package directory — outside
+the workspace, the workspace root, an ancestor of buildpack source directories, a buildpack's own directory — the selected
+ids are `rootIds ws inv`, the packaged ids in order are `sel.order` (C13's `getDependencies` over the workspace graph: for a
+well-formed workspace exactly the selected and their transitive dependencies, each once, dependencies first), and the
+printed lines are the output directories of `printedIds sel`; the package directory only enters through the directory
+names (`destStr (packageDirAbs ws inv cfg)`). -/
+theorem selection_independent_of_package_dir (ws : Workspace) (inv : Str) (cfg : Config) (seed : FS) (res : Result)
+    (h : package ws inv cfg seed = .ok res) :
+    ∃ sel : Selection, selectionOf ws inv = .ok sel ∧ sel.roots = rootIds ws inv ∧ res.built = sel.order ∧
+      res.stdout = (printedIds sel).map (destStr (packageDirAbs ws inv cfg) cfg) ∧
+      ∀ nodes, WellFormed ws nodes → IsBuildOrder (depsOf nodes) sel.roots sel.order := by
+  obtain ⟨sel, h1, h2, h3, h4⟩ := package_selection h
+  refine ⟨sel, h1, h2, h3, h4, ?_⟩
+  intro nodes hwf
+  rw [h2, ← h3]
+  exact selection ws inv cfg seed res nodes hwf h
+
+/-- **M1 (two runs).** Two runs over the same workspace from the same invocation directory with **any two** configurations
+(in particular any two `--package-dir`s) and any two trees in their package directories: both succeed or both fail with
+the same error; when they succeed they package the same buildpacks in the same order and print the output directories of
+the same ids in the same order, each below its own package directory. No hypothesis. -/
+theorem outcome_independent_of_package_dir (ws : Workspace) (inv : Str) (cfg₁ cfg₂ : Config) (seed₁ seed₂ : FS) :
+    match package ws inv cfg₁ seed₁, package ws inv cfg₂ seed₂ with
+    | .ok r₁, .ok r₂ => r₁.built = r₂.built ∧ ∃ ids : List String,
+        r₁.stdout = ids.map (destStr (packageDirAbs ws inv cfg₁) cfg₁) ∧
+        r₂.stdout = ids.map (destStr (packageDirAbs ws inv cfg₂) cfg₂)
+    | .error e₁, .error e₂ => e₁ = e₂
+    | _, _ => False := by
+  have hs := package_same ws inv cfg₁ cfg₂ seed₁ seed₂
+  cases h1 : package ws inv cfg₁ seed₁ with
+  | error e₁ =>
+    cases h2 : package ws inv cfg₂ seed₂ with
+    | error e₂ => rw [h1, h2] at hs; simpa [SameOutcome] using hs
+    | ok _ => rw [h1, h2] at hs; simp [SameOutcome] at hs
+  | ok r₁ =>
+    cases h2 : package ws inv cfg₂ seed₂ with
+    | error e₂ => rw [h1, h2] at hs; simp [SameOutcome] at hs
+    | ok r₂ =>
+      obtain ⟨s₁, ha1, _, hb1, hc1⟩ := package_selection h1
+      obtain ⟨s₂, ha2, _, hb2, hc2⟩ := package_selection h2
+      rw [ha1] at ha2
+      simp only [Except.ok.injEq] at ha2
+      subst ha2
+      exact ⟨by rw [hb1, hb2], printedIds s₁, hc1, hc2⟩
+
 /-! ### non-vacuity -/
 
 def aToml : String := "a-descriptor"
@@ -395,6 +444,29 @@ example : okWith (package sampleWs "/w".toList sampleCfg []) (fun r =>
     r.stdout.map String.ofList == ["/w/packaged/t/debug/v_a", "/w/packaged/t/debug/v_b", "/w/packaged/t/debug/v_m"] &&
     lookup r.fs ["t", "debug", "v_b", "bin", "build"] == some (.file (.artifact "bp-b" "only" .dev))) = true := by
   decide +kernel
+
+/-- the package directory is the workspace root (`--package-dir .`), an ancestor of buildpack sources (`bps`), a
+buildpack's own directory, given relative, absolute, with a trailing slash: from the workspace root every buildpack is
+selected, packaged and printed all the same — below that directory -/
+example : (match selectionOf sampleWs "/w".toList with
+    | .ok sel => sel.roots == ["v/a", "v/m", "v/b"] && sel.order == ["v/a", "v/m", "v/b"] && printedIds sel == ["v/a", "v/b", "v/m"]
+    | .error _ => false) = true := by decide +kernel
+example : okWith (package sampleWs "/w".toList ⟨.dev, "t", some ".".toList⟩ []) (fun r =>
+    r.built == ["v/a", "v/m", "v/b"] &&
+    r.stdout.map String.ofList == ["/w/t/debug/v_a", "/w/t/debug/v_b", "/w/t/debug/v_m"]) = true := by decide +kernel
+example : okWith (package sampleWs "/w".toList ⟨.dev, "t", some "bps".toList⟩ []) (fun r =>
+    r.built == ["v/a", "v/m", "v/b"] &&
+    r.stdout.map String.ofList == ["/w/bps/t/debug/v_a", "/w/bps/t/debug/v_b", "/w/bps/t/debug/v_m"] &&
+    lookup r.fs ["t", "debug", "v_m", "package.toml"] == some (.file (.pkg ⟨".".toList,
+      ["/w/bps/t/debug/v_a".toList, "/w/vendor/f".toList, "docker://docker.io/x/y:1".toList], "linux".toList⟩))) = true := by
+  decide +kernel
+example : okWith (package sampleWs "/w".toList ⟨.release, "t", some "/w/bps/a/".toList⟩ []) (fun r =>
+    r.built == ["v/a", "v/m", "v/b"] &&
+    r.stdout.map String.ofList == ["/w/bps/a/t/release/v_a", "/w/bps/a/t/release/v_b", "/w/bps/a/t/release/v_m"]) = true := by
+  decide +kernel
+/-- from a buildpack's directory with `--package-dir ..` (its parent, which holds every libcnb.rs buildpack) -/
+example : okWith (package sampleWs "/w/bps/b".toList ⟨.dev, "t", some "..".toList⟩ []) (fun r =>
+    r.built == ["v/b"] && r.stdout.map String.ofList == ["/w/bps/t/debug/v_b"]) = true := by decide +kernel
 
 /-- the workspace root is itself a buildpack directory (root package + members): invoked there, only the root buildpack
 (and what it depends on) is selected, packaged and printed — not every buildpack of the workspace; the member `v/one` is
